@@ -5,7 +5,7 @@ reg(Prop('C10', [
     Stream('c10.ops', 30000, 1500000, 'spec'),
     Stream('c10.utf8', 5000, 500000, 'spec', exhaustive='every byte string of length <= 2; 17x8x4(x4) boundary grid of 3/4-byte sequences'),
     Stream('c10.parse', 20000, 900000, 'oracle'),
-], level='proof (partial)',
+], level='proof',
     clauses=[
         'step_closed_form / failure_keeps_state / only_read_uint_panics: the function-by-function model of EndianReader (SubRange asserts, unchecked `len -= n`, debug_assert!s) equals a closed-form cursor machine; a failing call never moves the reader; no call inside the section panics except read_uint(n>8)',
         'inv_preserved, all_histories, one_reader_histories: off+len <= |buf| (ptr+len inside the allocation) for every live and every returned reader after any history of calls/clone/split/drop on a pool of readers, any arguments, debug and release',
